@@ -181,7 +181,7 @@ def check_one(ctx, rng, cls, op, special=False):
     o = special_object(rng, cls) if special and cls in ('Arc2D', 'Arc3D', 'Mesh2D', 'Mesh3D') else Bd.make(rng, cls)
     tiny = None
     if cls == 'Face3D' and op == 'scale' and rng.random() < 0.75:
-        # a small face (a few centimetres across) in a tilted plane: scaling it down leaves an area of 1e-5 .. 1e-3
+        # a small face (a few centimetres across) in a tilted plane: scaling it down leaves an area of a few 1e-6 .. 1e-3 (edges still above 1e-3)
         fr = G.rational_frame(rng, special=False); og = G.rpt3(rng, 5.0)
         bb = G.star_polygon(rng, n=rng.randint(3, 6), R=0.0625, center=(0.0, 0.0), bits=14)
         try:
@@ -199,7 +199,7 @@ def check_one(ctx, rng, cls, op, special=False):
     if isvec:
         args = args[:-1]      # vectors: rotate(angle) / rotate(axis, angle) / reflect(normal): no origin
     if tiny is not None:
-        args = [rng.choice([0.05, 0.0625, 0.05, 0.125, 4.0]), P3(tiny)]      # scaled about a point next to the face
+        args = [rng.choice([0.05, 0.0625, 0.03125, 0.025, 0.03125, 0.125, 4.0]), P3(tiny)]      # scaled about a point next to the face
     if special:
         # the special member is transformed both cold (nothing read yet) and warm (after it has answered its properties)
         evaluate(ctx, cls, op, o, args, pkey, warm=False)
@@ -446,6 +446,11 @@ def explore(ctx):
                     check_one(ctx, rng, cls, op, special=(i_ == 0))
                 except AssertionError as e:
                     ctx.violation('%s.%s:raises' % (cls, op), 'AssertionError %s' % e, {'class': cls, 'op': op})
+    for _ in range(ctx.n(12, 60)):      # more of the small faces scaled down (the plane of the image is rebuilt from its vertices)
+        try:
+            check_one(ctx, rng, 'Face3D', 'scale')
+        except AssertionError as e:
+            ctx.violation('Face3D.scale:raises', 'AssertionError %s' % e, {'class': 'Face3D', 'op': 'scale'})
 
 
 def replay(ctx, data):
